@@ -5,6 +5,18 @@ COMMON_NOTE = ("Trusted base: Lean 4.33 kernel; axioms ⊆ {propext, Classical.c
                "generated tables (harness/gen_tables.py). ")
 
 CLAIMED = {
+    "C10": {
+        "text": "Theorems (Lean, unbounded): parse_total — no pointer content (any code points, any length, invalid UTF-8) makes the hint parser "
+                "raise; recover_highest_newest — the scan returns an existing metadata file of the highest version and, among those, of the "
+                "newest mtime, for every listing; open_resolves_latest_partial — with the committed latest version on storage, no file of a "
+                "version ≥ it, and the pointer missing/unparseable/dangling/current, opening resolves to it; never_reinit — 'no table' is "
+                "answered only when a successful listing holds no metadata version. The unrestricted resolution statement is refuted in Lean "
+                "(uncommitted higher version; stale pointer) and both witnesses are replayed on the real library as known findings. "
+                "Correspondence: _parse_hint_content on a byte grammar, _recover_version_from_files and _current_version_info on stub storage.",
+        "design_ref": "§6 C10",
+        "note": "Code points abstracted to classes measured with Python's own str methods; real-table histories are local-filesystem only.",
+        "technique": "Lean 4 theorems over a code-point-class model of the parser and the recovery fold + correspondence on a byte grammar",
+    },
     "C20": {
         "text": "Theorems (Lean, unbounded): range_reader_refines_file — for every seek/read program, object size and start position the "
                 "S3 range reader yields the positions, delivered byte ranges and errors of an ordinary file; ranges_in_bounds — every ranged "
